@@ -59,6 +59,19 @@ def ref_transform(family, P, t, kind):
         return sum(sp.exp(s * x) for x in range(a, b + 1)) / (b - a + 1)
     if family == "Categorical":
         return sum(p * sp.exp(s * i) for i, p in enumerate(P))
+    if family == "Beta":
+        # integer shapes: the density x^(a-1) (1-x)^(b-1) / B(a,b) is a polynomial; with I_m(c) = int_0^1 x^m e^(cx) dx,
+        # I_0 = (e^c - 1)/c, I_m = e^c/c - (m/c) I_(m-1) (integration by parts); c = s * scale
+        a, b = sp.sympify(P[0]), sp.sympify(P[1])
+        if not (a.is_Integer and b.is_Integer and a >= 1 and b >= 1):
+            return None
+        a, b = int(a), int(b)
+        c = s * (P[2] if len(P) > 2 else 1)
+        im = [(sp.exp(c) - 1) / c]
+        for m in range(1, a + b):
+            im.append(sp.exp(c) / c - m * im[m - 1] / c)
+        B = sp.Rational(sp.factorial(a - 1) * sp.factorial(b - 1), sp.factorial(a + b - 1))
+        return sum(sp.binomial(b - 1, j) * (-1) ** j * im[a - 1 + j] for j in range(b)) / B
     return None
 
 
@@ -154,9 +167,14 @@ def job(item):
             except Exception as e:
                 out["refusals"].append({"id": tag, **polar_iface.exc_info(e)})
                 continue
+            if pt.has(sp.beta):
+                pt = pt.replace(sp.beta, lambda x, y: sp.gamma(x) * sp.gamma(y) / sp.gamma(x + y))
             if isinstance(pt, sp.Piecewise):
-                # Piecewise((1, t == 0), (expr, True)): select by the concrete argument, keep the general branch for symbolic t
-                pt = pt.args[-1][0] if tv is t else pt
+                # Piecewise((1, t == 0), (expr, True)) or Piecewise((expr, t != 0), (value at 0, True)): select by the concrete
+                # argument, keep the general branch (the one that mentions t) for symbolic t
+                if tv is t:
+                    gen = [e for e, c in pt.args if e.has(t)]
+                    pt = gen[0] if gen else pt.args[-1][0]
             if tv is t:
                 rt = ref
             elif tv == 0:
@@ -179,6 +197,8 @@ def job(item):
             ai = a[1] if a[1] is not None else z3.RealVal(0)
             bi = b[1] if b[1] is not None else z3.RealVal(0)
             cons = assume + tr.constraints() + [c * c + s_ * s_ == 1]
+            if tv is t and family == "Beta":
+                cons.append(zv("t") != 0)
             if tv is t and family in ("DiscreteUniform", "Uniform"):
                 cons.append(z3.Not(z3.And(c == 1, s_ == 0)))  # t not a multiple of 2 pi (removable singularity handled at t = 0)
             v, model = smt.decide(cons + [z3.Or(a[0] != b[0], ai != bi)], out["stats"], item.get("tq", 30000), tag=tag)
